@@ -2,7 +2,7 @@
    byte and spec_float stay extracted inductives. *)
 From Coq Require Import ExtrOcamlBasic.
 From Coq Require Import List ZArith Strings.Byte Floats.SpecFloat.
-From Ugo Require Import Base.Res Base.GoInt Base.GoFloat Value.PValue Value.Ops Conv.GoValue Skel.Skel.
+From Ugo Require Import Base.Res Base.GoInt Base.GoFloat Value.PValue Value.Ops Conv.GoValue Skel.Skel Byte.Instr Byte.V1Conv.
 Definition byte_to_N := Byte.to_N.
 Definition byte_of_N := Byte.of_N.
 Extraction "ugomodel.ml"
@@ -10,4 +10,5 @@ Extraction "ugomodel.ml"
   f64_of_bits bits_of_f64 f32_of_bits
   to_object to_object_alt to_interface
   binop vm_equal vm_not_equal unop
-  run_program sem_program.
+  run_program sem_program
+  conv_comp_func reloc_ok.
